@@ -224,3 +224,29 @@ Proof.
   try apply Z.leb_le in A; try apply Z.ltb_lt in B; try apply Z.leb_gt in A; try apply Z.ltb_ge in B;
   split; intros H; try discriminate; try (inversion H; subst; split; auto; lia); destruct H; try lia; subst; reflexivity.
 Qed.
+
+(* ---- ARR_SLICE: the model has no element tag at all.  The new array takes one COUNTED reference per reference element
+   of the copied range, whatever the source array was created as (vm_array_slice retains every copied element) *)
+Theorem slice_retains_every_element : forall m s e c r rc o,
+  Inv m -> regs m = VRef c :: r -> get (hp m) c = Some (Live rc o) ->
+  let sub := firstn (e - s) (skipn s (ovals o)) in
+  exists m' i, run_uop (USlice s e) m = Ok m' /\ regs m' = VRef i :: VRef c :: r /\
+    get (hp m') i = Some (Live 1 (Obj KArr sub)) /\
+    forall x, x <> i -> rcof (hp m') x = rcof (hp m) x + cnt x (refs sub).
+Proof.
+  intros m s e c r rc o I Hs G sub.
+  assert (SL: forall x, cnt x (refs sub) <= cnt x (heap_refs (hp m))).
+  { intros x. pose proof (cell_refs_le_heap x _ _ _ G). simpl in H.
+    pose proof (cnt_refs_firstn_le x (e - s) (skipn s (ovals o))). pose proof (cnt_refs_skipn_le x s (ovals o)).
+    unfold sub. lia. }
+  pose proof I as I0. destruct I as [W P].
+  destruct (retain_all_ok (refs sub) (hp m) W) as [h1 [Ra [W1 [C1 [C2 Mo1]]]]].
+  { intros x Hx. apply live_of_root; auto. unfold indeg. specialize (SL x). lia. }
+  destruct (alloc h1 (Obj KArr sub)) as [h2 i] eqn:A.
+  destruct (alloc_ok _ (Obj KArr sub) _ _ W1 eq_refl A) as [W2 [Ei [R1 [R2 Mo2]]]].
+  exists (M (stack m) (globals m) (frames m) (VRef i :: VRef c :: r) h2), i.
+  split. { unfold run_uop. rewrite Hs, G. fold sub. rewrite Ra. cbn [bind]. rewrite A. reflexivity. }
+  split. reflexivity.
+  split. { unfold alloc in A. inversion A; subst. simpl. apply get_app_new. }
+  intros x Hx. simpl. rewrite R1, C1. rewrite cnt_one_neq by auto. lia.
+Qed.
